@@ -238,7 +238,7 @@ struct C09 : Scenario {
             w->write_initial();
             w->run(1, w->last_step(), &acc);
         } catch (const std::exception& e) {
-            if (r.violations.empty()) r.fail("C09.run_threw", std::string("the fault-free run threw: ") + e.what());
+            if (r.violations.empty()) r.fail("C09.run_threw." + msg_key(e.what()), std::string("the fault-free run threw: ") + e.what());
             if (getenv("VERIF_DUMP_DECK")) fs::spit("/tmp/failed_deck.DATA", deck);
         }
         r.counters["comparisons"] = acc.comparisons;
